@@ -72,18 +72,18 @@ func typeIsInfallibleSink(t types.Type) bool {
 }
 
 var wrapperCtors = map[string]bool{
-	"archive/tar.NewWriter":                            true,
-	"compress/gzip.NewWriter":                          true,
-	"compress/gzip.NewWriterLevel":                     true,
-	"github.com/klauspost/pgzip.NewWriter":             true,
-	"github.com/klauspost/pgzip.NewWriterLevel":        true,
-	"github.com/klauspost/compress/zstd.NewWriter":     true,
-	"github.com/klauspost/compress/gzip.NewWriter":     true,
-	"github.com/ulikunitz/xz.NewWriter":                true,
-	"github.com/ulikunitz/xz/lzma.NewWriter":           true,
-	"bufio.NewWriter":                                  true,
-	"bufio.NewWriterSize":                              true,
-	"github.com/blakesmith/ar.NewWriter":               true,
+	"archive/tar.NewWriter":                                    true,
+	"compress/gzip.NewWriter":                                  true,
+	"compress/gzip.NewWriterLevel":                             true,
+	"github.com/klauspost/pgzip.NewWriter":                     true,
+	"github.com/klauspost/pgzip.NewWriterLevel":                true,
+	"github.com/klauspost/compress/zstd.NewWriter":             true,
+	"github.com/klauspost/compress/gzip.NewWriter":             true,
+	"github.com/ulikunitz/xz.NewWriter":                        true,
+	"github.com/ulikunitz/xz/lzma.NewWriter":                   true,
+	"bufio.NewWriter":                                          true,
+	"bufio.NewWriterSize":                                      true,
+	"github.com/blakesmith/ar.NewWriter":                       true,
 	"github.com/ProtonMail/go-crypto/openpgp/clearsign.Encode": true,
 }
 
